@@ -372,7 +372,7 @@ func genReport(ctx *genCtx, o checkOpts, f *genResult, b genBudget) string {
 	}
 	delete(decoded, "_tape")
 	rf := &GenReplayFile{Property: o.id, Violation: f.V.Clause, Detail: detail, Seed: o.seed, Run: f.Idx, Tape: rec, TapeOriginal: orig, Decoded: decoded, Engine: "gensim", RepoRev: repoRev(), ShrinkEvals: evals}
-	dirR := filepath.Join(verifRoot, "replays")
+	dirR := replaysDir()
 	os.MkdirAll(dirR, 0o755)
 	path := filepath.Join(dirR, fmt.Sprintf("%s-%d-%d.json", o.id, o.seed, f.Idx))
 	bs, _ := json.MarshalIndent(rf, "", " ")
